@@ -182,3 +182,39 @@ def denote_feature(feature, seq, stranded=True):
             w = dna.least_rotation(w)
         out.append((w, s if stranded else None))
     return tuple(out)
+
+
+def reading(feature, seq):
+    """Per listed part, the letters the part covers in reading order (ascending
+    positions for strand +1/None, descending for -1) paired with the strand;
+    coordinates modulo n.  -> list of (tuple of (letter, strand), covers whole circle)"""
+    n = len(seq)
+    out = []
+    for (a, b, s) in dna.loc_parts(feature.location):
+        ln = b - a
+        if ln < 0 or ln > n:
+            raise ValueError("illegal part (%d,%d) on length %d" % (a, b, n))
+        idx = [(a + i) % n for i in range(ln)]
+        if s == -1:
+            idx.reverse()
+        out.append((tuple((seq[i], s) for i in idx), ln == n))
+    return out
+
+
+def same_reading(before, after_flat, n):
+    """Does the flattened reading ``after_flat`` spell the parts of ``before``
+    in order?  Splitting a part into consecutive pieces (in reading order) does
+    not matter; a part covering the whole circle may start anywhere."""
+    if not before:
+        return not after_flat
+    part, whole = before[0]
+    k = len(part)
+    head = tuple(after_flat[:k])
+    if len(head) < k:
+        return False
+    if not whole:
+        return head == part and same_reading(before[1:], after_flat[k:], n)
+    for r in range(k):
+        if head == part[r:] + part[:r] and same_reading(before[1:], after_flat[k:], n):
+            return True
+    return False
